@@ -83,3 +83,8 @@ package morton
 //@   prelude morton
 //@   requires x <= 0x7FFFFFFF && y <= 0x7FFFFFFF
 //@   ensures interleave(x, y) <= 0x3FFFFFFFFFFFFFFF
+//@
+//@ lemma[C17,C02] parent_bits(z BV64)
+//@   mode bv
+//@   prelude morton
+//@   ensures even_bits(z >> 2) == even_bits(z) >> 1 && even_bits((z >> 2) >> 1) == even_bits(z >> 1) >> 1
